@@ -87,7 +87,7 @@ def gen(c, uid):
     name = ("Top_%s" if top else "K%d_" + uid) % (uid if top else i)
     body = []
     pool = ["a", "a0", "ab", "b", "in_", "out", "w", "w1", "w10", "ifc", "ifc2", "sub", "sub1", "m", "p", "st"] + \
-           ["z%d" % j for j in range(40)]
+           ["z%d" % j for j in range(400)]
     c.shuffle(pool)
     k = 0
     mine = []
@@ -107,6 +107,21 @@ def gen(c, uid):
         stats["inversed"] = stats.get("inversed", 0) + 1
       if fed:
         mine.append((pool[k], ic, dims))
+      k += 1
+    # ragged lists: triangular (first row EMPTY), and mixed nesting depth inside one list
+    if c.random() < 0.35:
+      n = c.randint(2, 4)
+      what = c.choice(["Wire(Bits8)", "%s()" % c.choice(ifcs), "InPort(Bits4)"])
+      form = c.choice(["tri0", "tri1", "mixed", "deep_first_shallow_later"])
+      if form == "tri0":
+        body.append("s.%s = [[%s for _ in range(i)] for i in range(%d)]" % (pool[k], what, n))
+      elif form == "tri1":
+        body.append("s.%s = [[%s for _ in range(i + 1)] for i in range(%d)]" % (pool[k], what, n))
+      elif form == "mixed":
+        body.append("s.%s = [%s, [%s, %s], [[%s]]]" % (pool[k], what, what, what, what))
+      else:
+        body.append("s.%s = [[[%s]], [%s, %s], %s]" % (pool[k], what, what, what, what))
+      stats["ragged_lists"] = stats.get("ragged_lists", 0) + 1
       k += 1
     if c.random() < 0.5:
       kind = c.choice(["CalleePort()", "CallerPort()", "CalleeIfcCL()", "CallerIfcCL()"])
